@@ -53,6 +53,7 @@ amap_f = z3.Function("Amap", z3.ArraySort(I, V.RefSort), IS)   # Amap C i = A (C
 L_uf = z3.Function("L!type", V.RefSort, S)                      # ghost: the Specification's bit length set of a type
 A_uf = z3.Function("A!type", V.RefSort, I)                      # ghost: the Specification's alignment of a type
 sfold_f = z3.Function("sfold", SS, IS, I, S)                    # struct layout fold over the first n fields
+kfold_hint = z3.Function("unfold!kfold", S, I, B)                   # trigger marker: "unfold kfold at k"
 sfold_hint = z3.Function("unfold!sfold", SS, IS, I, B)          # trigger marker: "unfold sfold at n" (no meaning of its own)
 
 # witness (skolem) functions
@@ -186,6 +187,9 @@ def prelude() -> List[Tuple[str, str, Any]]:
         FA([A], kfold(A, 0) == singleton_f(0), patterns=[kfold(A, 0)]))
     add("kfold-one", "Lean: kfold A 1 = sumset {0} A = A   (kfold unfolded once; zero_add)",
         FA([A], kfold(A, 1) == A, patterns=[kfold(A, 1)]))
+    add("kfold-succ", "definitional (Lean Basic.kfold): kfold A (k+1) = sumset (kfold A k) A; instantiated only where a "
+                      "specification asks for it (trigger marker unfold!kfold)",
+        FA([A, k], Imp(k >= 0, kfold(A, k + 1) == sumset_f(kfold(A, k), A)), patterns=[kfold_hint(A, k)]))
     add("nsum-zero", "definitional (Lean nsum [] = {0})", FA([F], nsum(F, 0) == singleton_f(0), patterns=[nsum(F, 0)]))
     add("dmap", "definitional: Dmap C i = D (C i)  (the list of the children's sets)",
         FA([C, i], sel(dmap_f(C), i) == D_uf(sel(C, i)),
@@ -552,6 +556,11 @@ def LCM(a, b):
     import math
 
     return math.lcm(a, b)
+
+
+def kfold_unfold(A, k):
+    """trigger marker for the prelude axiom kfold-succ at k"""
+    return kfold_hint(A.term if isinstance(A, V.SymSet) else A, _i(k))
 
 
 def sfold_unfold(F, M, n):
